@@ -359,7 +359,9 @@ class OpRunner(object):
         w = self.w
         argv = []
         cwd = self.neutral_cwd()
-        if lab['td'] != 'none':
+        if lab['td'] == 'all':
+            argv.append('--all-users')
+        elif lab['td'] != 'none':
             regs = lab['td'].split('+')
             for r_ in regs:
                 tdarg, c, tdsp = self.td_arg_of(r_, cwd_free=(len(regs) == 1))
@@ -379,8 +381,8 @@ class OpRunner(object):
             lines.append({'date': tick, 'r': loc[0], 'd': loc[1], 'n': loc[2]})
         err = res['stderr']
         diag = []
-        for t in world.tdir_ids():
-            if world.tkind(t) == 't1':
+        for t in w.tdirs():
+            if world.tkind(t) in ('t1', 'o1'):
                 # a report names the skipped directory ($topdir/.Trash/$uid) or its parent ($topdir/.Trash) as a whole path
                 for p in (os.fsencode(w.tpath(t)), os.path.dirname(os.fsencode(w.tpath(t)))):
                     if re.search(re.escape(p) + rb'(?![A-Za-z0-9_./-])', err):
@@ -392,9 +394,9 @@ class OpRunner(object):
     def listdirs(self, lab, state, shim_kw=None):
         """trash-list --trash-dirs and trash-list --volumes"""
         w = self.w
-        res = self._run('trash-list', ['--trash-dirs'], self.neutral_cwd(), shim_kw=shim_kw)
+        res = self._run('trash-list', ['--trash-dirs'] + (['--all-users'] if lab.get('all') else []), self.neutral_cwd(), shim_kw=shim_kw)
         by_path = {}
-        for t in world.tdir_ids():
+        for t in w.tdirs():
             by_path.setdefault(os.fsencode(w.tpath(t)), t)
         found, notsticky, symlink, bad = [], [], [], []
         for line in res['stdout'].split(b'\n'):
@@ -405,6 +407,9 @@ class OpRunner(object):
                 if line.startswith(pre):
                     kind, path = k, line[len(pre):]
             t = by_path.get(path.rstrip(b'/'))
+            if t is None and lab.get('all') and kind == 'found' and path in [
+                    os.fsencode(os.path.join(d, '.local', 'share', 'Trash')) for n, u, d in w.pwall() if n not in ('u', 'o')]:
+                continue      # users of the password database whose home directory does not exist: named, nothing there
             if t is None:
                 bad.append(line[:200])
             else:
@@ -521,7 +526,9 @@ class OpRunner(object):
         cwd = self.neutral_cwd()
         tdsp = None
         tdargs = {}
-        if o['td'] != 'none':
+        if o['td'] == 'all':
+            argv.append('--all-users')
+        elif o['td'] != 'none':
             regs = o['td'].split('+')
             if len(regs) > 1 and self.rnd.random() < 0.5:
                 regs.reverse()
@@ -575,7 +582,7 @@ class OpRunner(object):
         # layout tolerant: a record names a path at its end; lines that name nothing inside a trash
         # directory (prompts, headings) are ignored
         keys = sorted(cands, key=len, reverse=True)
-        marks = [os.fsencode(w.tpath(t)) for t in world.tdir_ids()] + [x for v in alt.values() for x in v]
+        marks = [os.fsencode(w.tpath(t)) for t in w.tdirs()] + [x for v in alt.values() for x in v]
         pos = 0
         while pos < len(text):
             best = None
